@@ -285,6 +285,27 @@ def _paramtypes(rng, tier, flags):
                     c['lam'] = [0, 1]
                 c['ptype'] = ptype
                 out.append(c)
+    # k, r as NARROW NumPy scalars whose k**(2r+1) is beyond the type's range (regression test of the repair dc48e45:
+    # before it, k**n wrapped silently, e.g. uint8 5**5 = 53 states, int8 2**7 = -128 -> an empty table)
+    narrow = [('int8', 2, 3), ('int8', 6, 1), ('int8', 3, 2), ('int8', 7, 1), ('uint8', 7, 1), ('uint8', 2, 4), ('int8', 2, 4),
+              ('uint8', 4, 2), ('int8', 4, 2), ('uint8', 3, 3), ('uint8', 5, 2), ('int8', 5, 2), ('uint8', 16, 1), ('int8', 16, 1),
+              ('int16', 5, 2), ('int16', 3, 3)]                       # the last two fit int16: control group
+    for ptype, k, r in narrow:
+        K = k ** (2 * r + 1)
+        fl = flags if (K <= 1024 or thorough) else [rng.choice(flags)]
+        for sq, iso in fl:
+            c = _rrt_case(rng, k, r, sq, iso, rng.choice(['given', 'none']), rng.choice([[1, 2], [9, 10], [1, 4], None]),
+                          'random' if K > 243 else rng.choice(['random', 'alternating', 'never_q']),
+                          'paramtypes/narrow_overflow/rrt/%s' % ptype)
+            c['ptype'] = ptype
+            out.append(c)
+            if K <= 1024 or (sq and iso) or thorough:
+                c = _twt_case(rng, k, r, sq, iso, 'conforming', 'near' if K > 1024 else rng.choice(['near', 'grid', 'offgrid', 'extreme']),
+                              'random', 'paramtypes/narrow_overflow/twt/%s' % ptype)
+                if c['lam'][0] < 0 and ptype == 'uint8':
+                    c['lam'] = [0, 1]
+                c['ptype'] = ptype
+                out.append(c)
     # lambda_val in the other numeric forms
     dy = [[0, 1], [1, 1], [1, 2], [1, 4], [3, 4], [1, 8], [5, 8]]
     for lam_type, lams in (('float64', [l for l in LAMS if l]), ('float32', dy), ('int', [[0, 1], [1, 1]]),
@@ -468,10 +489,15 @@ def generate(rng, tier):
         plan = [(k, r, sq, iso, j) for k, r in ((2, 8), (3, 5)) for sq, iso in flags for j in (-2, -1, 0, 1, 3)]
     plan += [(36, 1, True, True, 1), (36, 1, True, False, -1)] + ([(36, 1, False, True, 2), (36, 1, False, False, 0)]
                                                                   if tier == 'thorough' else [])
+    narrow16 = [(8, 2, False, False, -1), (8, 2, True, True, 1)] + ([(2, 7, True, False, 2), (8, 2, False, True, 0)] if tier == 'thorough' else [])
+    plan += narrow16
     for i, (k, r, sq, iso, j) in enumerate(plan):
         # lambda_val 9/10 (lambda ~ 0.9, both directions open), and for a downward walk sometimes 1 (lambda exactly 1)
         lam = [1, 1] if (j < 0 and i % 4 == 3) else [9, 10]
-        large.append({'kind': ('large/near_target/k%dr%d' if k < 36 else 'large/letters/k%dr%d') % (k, r), 'op': 'large', 'k': k, 'r': r, 'sq': sq, 'iso': iso,
+        is16 = i >= len(plan) - len(narrow16)
+        large.append({'kind': ('paramtypes/narrow_overflow/oracle-only/int16/k%dr%d' if is16 else
+                               'large/near_target/k%dr%d' if k < 36 else 'large/letters/k%dr%d') % (k, r), 'op': 'large',
+                      'ptype': 'int16' if is16 else None, 'k': k, 'r': r, 'sq': sq, 'iso': iso,
                       'lam': lam, 'q': rng.randrange(k), 'j': j, 'seed': rng.randrange(10 ** 6)})
     return out + large
 
@@ -622,13 +648,14 @@ def _run_large(c):
     np.random.randint = lambda *a, **kw: np.int32(q)
     try:
         def go():
-            t, l, q_rep = cpl.random_rule_table(k, r, lambda_val=c['lam'][0] / c['lam'][1], quiescent_state=q,
+            ity = getattr(np, c['ptype']) if c.get('ptype') else (lambda x: x)
+            t, l, q_rep = cpl.random_rule_table(ity(k), ity(r), lambda_val=c['lam'][0] / c['lam'][1], quiescent_state=ity(q),
                                                 strong_quiescence=sq, isotropic=iso)
             items0 = [(str(s), int(v)) for s, v in t.items()]
             rrt_msg = _rrt_clauses(k, r, sq, iso, q, items0, _lam_obs(l, K), int(q_rep))
             c0 = sum(1 for _, v in items0 if v == q)
             num = K - c0 + j                       # target = current lambda + j/K, an exact fraction
-            t2, l2 = cpl.table_walk_through(t, num / K, k, r, q, strong_quiescence=sq, isotropic=iso)
+            t2, l2 = cpl.table_walk_through(t, num / K, ity(k), ity(r), ity(q), strong_quiescence=sq, isotropic=iso)
             items1 = [(str(s), int(v)) for s, v in t2.items()]
             twt_msg = _twt_clauses(k, r, q, sq, iso, items0, items1, _lam_obs(l2, K), Fraction(num, K))
             c1 = sum(1 for _, v in items1 if v == q)
@@ -687,7 +714,7 @@ def nontrivial(c, obs):
     if obs[0] != 'ok':
         return False
     if c['op'] == 'large':
-        return obs[1]['K'] > 40000
+        return obs[1]['K'] > 30000
     return c['op'] == 'table_rule' or len(obs[1]['table']) > 0
 
 
